@@ -16,7 +16,10 @@ EXTENDS Naturals, Sequences, SequencesExt, FiniteSets, TLC, TLCExt, Json, IOUtil
 
 CONSTANTS Level
 
-Save(nm, c) == [k |-> "save", name |-> nm, c |-> c]
+Save(nm, c) == [k |-> "save", name |-> nm, c |-> c, d |-> 0]
+(* x, y = tag_state(value, d, name=nm): TWO values under one name, the second a constant d > 0 that does not depend on any
+   enclosing loop (under a vmap it is NOT batched while the first one is) *)
+Save2(nm, c, d) == [k |-> "save", name |-> nm, c |-> c, d |-> d]
 Ns(ns, b) == [k |-> "ns", ns |-> ns, body |-> b]
 Scan(b, n) == [k |-> "scan", body |-> b, n |-> n]
 Vmap(b, n) == [k |-> "vmap", body |-> b, n |-> n]
@@ -38,7 +41,13 @@ S2 == {Ns("n", <<Scan(<<Save("a", 1)>>, 2)>>),                       \* namespac
        Scan(<<Vmap(<<Save("a", 1)>>, 2)>>, 2),
        Vmap(<<Ns("n", <<Save("a", 1)>>)>>, 2),
        Ns("n", <<Vmap(<<Save("a", 1)>>, 2)>>),
-       Call(<<Ns("n", <<Scan(<<Save("a", 1)>>, 2)>>)>>)}
+       Call(<<Ns("n", <<Scan(<<Save("a", 1)>>, 2)>>)>>),
+       Vmap(<<Vmap(<<Save("a", 1)>>, 2)>>, 2),                       \* nested vmaps (the tag is batched twice)
+       Vmap(<<Vmap(<<Ns("n", <<Save("a", 1)>>)>>, 2)>>, 2),
+       Scan(<<Vmap(<<Vmap(<<Save("a", 1)>>, 2)>>, 2)>>, 2),
+       Vmap(<<Vmap(<<Scan(<<Save("a", 1)>>, 2)>>, 2)>>, 2),
+       Save2("p", 1, 7), Vmap(<<Save2("p", 1, 7)>>, 2), Scan(<<Save2("p", 1, 7)>>, 2),     \* two values, differently batched
+       Vmap(<<Vmap(<<Save2("p", 1, 7)>>, 2)>>, 2), Ns("n", <<Vmap(<<Save2("p", 1, 7), Save("a", 2)>>, 2)>>)}
 P2 == P1 \cup {<<s>> : s \in S2} \cup {<<s, Save("a", 4)>> : s \in S2}
       \cup {<<Ns("n", <<Save("b", 7)>>), Scan(<<Ns("n", <<Save("a", 1)>>)>>, 2)>>,    \* same namespace outside and inside a scan
             <<Ns("n", <<Save("a", 7)>>), Ns("n", <<Scan(<<Save("b", 1)>>, 2)>>)>>,
@@ -71,7 +80,7 @@ RECURSIVE Saves(_, _, _)
 Saves(p, nsPath, loops) ==
   IF p = <<>> THEN <<>>
   ELSE LET s == Head(p)
-           here == CASE s.k = "save" -> <<[path |-> Append(nsPath, s.name), loops |-> loops, c |-> s.c]>>
+           here == CASE s.k = "save" -> <<[path |-> Append(nsPath, s.name), loops |-> loops, c |-> s.c, d |-> s.d]>>
                      [] s.k = "ns"   -> Saves(s.body, Append(nsPath, s.ns), loops)
                      [] s.k \in {"scan", "vmap"} -> Saves(s.body, nsPath, Append(loops, [kind |-> s.k, n |-> s.n]))
                      [] s.k = "call" -> Saves(s.body, nsPath, loops)
@@ -80,7 +89,7 @@ Collected(p) ==
   LET sv == Saves(p, <<>>, <<>>)
       paths == {sv[i].path : i \in DOMAIN sv}
       last(q) == CHOOSE i \in DOMAIN sv : sv[i].path = q /\ \A j \in DOMAIN sv : sv[j].path = q => j <= i
-  IN [q \in paths |-> [loops |-> sv[last(q)].loops, c |-> sv[last(q)].c]]
+  IN [q \in paths |-> [loops |-> sv[last(q)].loops, c |-> sv[last(q)].c, d |-> sv[last(q)].d]]
 
 (* ------------- Impl: the interpreter ------------- *)
 (* collected_state as a map from name paths to [loops, c]; st = [coll, stack]; `loops` = the loops the value is inside *)
@@ -89,7 +98,7 @@ RECURSIVE Interp(_, _, _, _)
 Interp(p, st, loops, fixed) ==
   IF p = <<>> THEN st
   ELSE LET s == Head(p)
-           st2 == CASE s.k = "save" -> [st EXCEPT !.coll = Put(@, st.stack \o <<s.name>>, [loops |-> loops, c |-> s.c])]
+           st2 == CASE s.k = "save" -> [st EXCEPT !.coll = Put(@, st.stack \o <<s.name>>, [loops |-> loops, c |-> s.c, d |-> s.d])]
                     [] s.k = "ns"   -> LET r == Interp(s.body, [st EXCEPT !.stack = Append(@, s.ns)], loops, fixed)
                                        IN [r EXCEPT !.stack = st.stack]
                     [] s.k = "call" -> Interp(s.body, st, loops, fixed)
@@ -120,5 +129,5 @@ Spec == Init /\ [][Next]_prog
 CollectOK == Run(prog, TRUE).coll = Collected(prog) /\ Run(prog, TRUE).stack = <<>>
 CollectOldOK == Run(prog, FALSE).coll = Collected(prog)            \* expected to FAIL (pre-repair merge)
 Export == TLCGet("level") >= 0 /\ JsonSerialize(IOEnv.GX_OUT \o "/state_progs.json",
-            SetToSeq({[prog |-> p, expect |-> LET C == Collected(p) IN SetToSeq({[path |-> q, val |-> Tensor(C[q].loops, C[q].c), kinds |-> [j \in DOMAIN C[q].loops |-> C[q].loops[j].kind]] : q \in DOMAIN C})] : p \in Progs}))
+            SetToSeq({[prog |-> p, expect |-> LET C == Collected(p) IN SetToSeq({[path |-> q, val |-> Tensor(C[q].loops, C[q].c), kinds |-> [j \in DOMAIN C[q].loops |-> C[q].loops[j].kind], second |-> C[q].d] : q \in DOMAIN C})] : p \in Progs}))
 =============================================================================
